@@ -176,6 +176,44 @@ Proof.
     exists a, m. auto.
 Qed.
 
+(* completeness: every kept method of every registered API keeps a slot to the end *)
+Lemma register_all_complete f caller : forall apis r r',
+  register_all f caller r apis = Some r' ->
+  (forall x, In x (r_entries r) -> exists e, In e (r_entries r') /\ same_key e x = true)
+  /\ (forall a m, In a apis -> In m (a_methods a) -> stays (is_allowed f caller) m ->
+        exists e, In e (r_entries r') /\ same_key e (mk_entry a m) = true).
+Proof.
+  induction apis as [|a apis IH]; cbn [register_all]; intros r r' H.
+  - inversion H. subst. split.
+    + intros x Hx. exists x. split; [exact Hx | apply same_key_refl].
+    + intros a m Ha. destruct Ha.
+  - destruct (register f caller r a) as [r1|] eqn:R; [|discriminate].
+    destruct (IH _ _ H) as [K1 K2].
+    destruct (register_removes_exactly_protected _ _ _ _ _ R) as [_ [S2 [S3 _]]].
+    split.
+    + intros x Hx. destruct (S3 _ Hx) as [e1 [He1 Hk1]].
+      destruct (K1 _ He1) as [e [He Hk]]. exists e. split; [exact He|].
+      eapply same_key_trans; eassumption.
+    + intros a' m Ha' Hm Hst. destruct Ha' as [Ha' | Ha'].
+      * subst a'. destruct (S2 _ Hm Hst) as [e1 [He1 Hk1]].
+        destruct (K1 _ He1) as [e [He Hk]]. exists e. split; [exact He|].
+        eapply same_key_trans; eassumption.
+      * exact (K2 _ _ Ha' Hm Hst).
+Qed.
+
+(* whitelist selection is complete: every method of every selected API that passes RegisterName's
+   filter is served (under its namespace / wire name; a later API may have overridden the callback) *)
+Theorem exposed_complete cs meta f t c apis r a m :
+  exposed cs meta f t c apis = Some r ->
+  In a apis -> selected t c a = true -> In m (a_methods a) ->
+  stays (is_allowed f (caller_of cs t)) m ->
+  exists e, In e (r_entries r) /\ same_key e (mk_entry a m) = true.
+Proof.
+  unfold exposed. intros H Ha Hsel Hm Hst.
+  destruct (register_all_complete _ _ _ _ _ H) as [_ K2].
+  apply (K2 a m); [apply filter_In; split; assumption | exact Hm | exact Hst].
+Qed.
+
 (* the environment matters only through is_allowed of the two callers *)
 Lemma register_ext f f' caller r a :
   is_allowed f caller = is_allowed f' caller -> register f caller r a = register f' caller r a.
@@ -228,12 +266,13 @@ Proof.
 Qed.
 
 (* Methods that reach a keystore signing entry point although their name is not protected
-   (namespace, wire name).  Hand-written: a new one appearing in the tree breaks gen_apis_checked. *)
+   (namespace, wire name): the three that start the miner, which on a clique chain seals blocks
+   with the aquabase key through keystore SignHashAllowed.  Hand-written: a new unprotected
+   signer appearing in the tree breaks gen_api_sets_checked. *)
 Definition unprotected_signers : list (bytes * bytes) := Eval vm_compute in
-  [ (bs "personal", bs "signAndSendTransaction");   (* -> SendTransaction -> SignTxWithPassphrase *)
-    (bs "miner", bs "start");                       (* StartMining: clique block sealing, SignHashAllowed *)
-    (bs "aqua", bs "getWork");                      (* StartMining if not mining *)
-    (bs "testing", bs "getBlockTemplate") ].        (* StartMining if not mining *)
+  [ (bs "miner", bs "start");                       (* PrivateMinerAPI.Start -> StartMining *)
+    (bs "aqua", bs "getWork");                      (* PublicMinerAPI.GetWork: StartMining if not mining *)
+    (bs "testing", bs "getBlockTemplate") ].        (* PublicTestingAPI.GetBlockTemplate: StartMining if not mining *)
 
 Definition entry_ok (e : entry) : bool :=
   negb (e_signs e) || mem_pair (e_ns e, e_wire e) unprotected_signers.
@@ -301,7 +340,25 @@ End Checked.
 (* Part 2: the generated tables                                        *)
 (* ------------------------------------------------------------------ *)
 
-Lemma gen_apis_checked : forallb api_check gen_apis = true.
+Lemma gen_api_sets_checked : forallb (forallb api_check) gen_api_sets = true.
+Proof. vm_compute. reflexivity. Qed.
+
+Lemma gen_apis_checked apis : In apis gen_api_sets -> forallb api_check apis = true.
+Proof.
+  intro H. pose proof gen_api_sets_checked as G. rewrite forallb_forall in G. exact (G _ H).
+Qed.
+
+(* the unprotected signers reach no keystore entry point other than SignHashAllowed (the one handed
+   to the clique engine as block sealer by StartMining); everything else that signs has a protected name *)
+Definition n_SignHashAllowed := Eval vm_compute in bs "SignHashAllowed".
+Definition targets_check (x : bytes * bytes * bytes * list bytes) : bool :=
+  match x with
+  | (ns, wire, _, ts) =>
+    if mem_pair (ns, wire) unprotected_signers
+    then match ts with [t] => bytes_eqb t n_SignHashAllowed | _ => false end
+    else true
+  end.
+Lemma gen_exceptions_only_seal : forallb targets_check gen_sign_targets = true.
 Proof. vm_compute. reflexivity. Qed.
 
 Lemma gen_meta_checked : api_check gen_meta_api = true.
@@ -326,26 +383,33 @@ Lemma gen_newserver_allowed f : is_allowed f (caller_newserver gen_callers) = fa
 Proof. destruct f; vm_compute; reflexivity. Qed.
 
 
-Theorem no_optin_signers_listed f t c r e :
+Theorem no_optin_signers_listed apis f t c r e :
+  In apis gen_api_sets ->
   flag_of f t = false ->
-  gen_exposed f t c gen_apis = Some r -> In e (r_entries r) -> e_signs e = true ->
+  gen_exposed f t c apis = Some r -> In e (r_entries r) -> e_signs e = true ->
   In (e_ns e, e_wire e) unprotected_signers.
 Proof.
-  exact (no_optin_signers_listed_generic gen_callers gen_meta_api gen_apis
-           gen_callers_allowed gen_newserver_allowed gen_meta_checked gen_apis_checked f t c r e).
+  intro Hin.
+  exact (no_optin_signers_listed_generic gen_callers gen_meta_api apis
+           gen_callers_allowed gen_newserver_allowed gen_meta_checked (gen_apis_checked apis Hin) f t c r e).
 Qed.
 
-Theorem default_env_no_signing_partial t c r e :
-  gen_exposed all_off t c gen_apis = Some r -> In e (r_entries r) -> e_signs e = true ->
-  In (e_ns e, e_wire e) unprotected_signers.
-Proof. apply no_optin_signers_listed. destruct t; reflexivity. Qed.
+Theorem default_env_no_signing_partial apis t c r e :
+  In apis gen_api_sets ->
+  gen_exposed all_off t c apis = Some r -> In e (r_entries r) ->
+  e_signs e = false \/
+  In (e_ns e, e_wire e) [ (bs "miner", bs "start"); (bs "aqua", bs "getWork"); (bs "testing", bs "getBlockTemplate") ].
+Proof.
+  intros Hin H He. destruct (e_signs e) eqn:Hs; [right | left; reflexivity].
+  apply (no_optin_signers_listed apis all_off t c r e Hin); [destruct t; reflexivity | exact H | exact He | exact Hs].
+Qed.
 
-Theorem no_optin_no_protected_gen f t c r e :
+Theorem no_optin_no_protected_gen apis f t c r e :
   flag_of f t = false ->
-  gen_exposed f t c gen_apis = Some r -> In e (r_entries r) ->
+  gen_exposed f t c apis = Some r -> In e (r_entries r) ->
   e_sub e = true \/ is_protected (e_go e) = false.
 Proof.
-  exact (no_optin_no_protected_generic gen_callers gen_meta_api gen_apis
+  exact (no_optin_no_protected_generic gen_callers gen_meta_api apis
            gen_callers_allowed gen_newserver_allowed f t c r e).
 Qed.
 
@@ -358,19 +422,43 @@ Proof.
            gen_callers_allowed gen_newserver_allowed f f' t c apis).
 Qed.
 
+(* what is served is exactly what the transport's start function selects and RegisterName keeps *)
+Theorem gen_exposed_sound apis f t c r e :
+  gen_exposed f t c apis = Some r -> In e (r_entries r) ->
+  (exists m, In m (a_methods gen_meta_api) /\ e = mk_entry gen_meta_api m)
+  \/ (exists a m, In a apis /\ selected t c a = true /\ In m (a_methods a) /\ e = mk_entry a m
+                  /\ (m_sub m = true \/ is_protected (m_name m) = false \/ flag_of f t = true)).
+Proof.
+  intros H He.
+  destruct (exposed_sound _ _ _ _ _ _ _ _ H He) as [[m [Hm [Heq _]]] | [a [m [Ha [Hsel [Hm [Heq Hst]]]]]]].
+  - left. exists m. auto.
+  - right. exists a, m. rewrite gen_callers_allowed in Hst. auto.
+Qed.
+
+Theorem gen_exposed_complete apis f t c r a m :
+  gen_exposed f t c apis = Some r ->
+  In a apis -> selected t c a = true -> In m (a_methods a) ->
+  (m_sub m = true \/ is_protected (m_name m) = false \/ flag_of f t = true) ->
+  exists e, In e (r_entries r) /\ same_key e (mk_entry a m) = true.
+Proof.
+  intros H Ha Hsel Hm Hst.
+  apply (exposed_complete gen_callers gen_meta_api f t c apis r a m H Ha Hsel Hm).
+  unfold stays. rewrite gen_callers_allowed. exact Hst.
+Qed.
+
 (* ---------- refutations: concrete served signing methods in the default environment ---------- *)
 
-Definition serves_signing (f : flags) (t : transport) (c : config) (name : bytes) : bool :=
-  match gen_exposed f t c gen_apis with
+Definition serves_signing (apis : list api) (f : flags) (t : transport) (c : config) (name : bytes) : bool :=
+  match gen_exposed f t c apis with
   | Some r => existsb (fun e => e_signs e && negb (e_sub e) && bytes_eqb (wire_name e) name) (r_entries r)
   | None => false
   end.
 
-Lemma serves_signing_spec f t c name :
-  serves_signing f t c name = true ->
-  exists r e, gen_exposed f t c gen_apis = Some r /\ In e (r_entries r) /\ e_signs e = true /\ wire_name e = name.
+Lemma serves_signing_spec apis f t c name :
+  serves_signing apis f t c name = true ->
+  exists r e, gen_exposed f t c apis = Some r /\ In e (r_entries r) /\ e_signs e = true /\ wire_name e = name.
 Proof.
-  unfold serves_signing. destruct (gen_exposed f t c gen_apis) as [r|]; [|discriminate].
+  unfold serves_signing. destruct (gen_exposed f t c apis) as [r|]; [|discriminate].
   intro H. apply existsb_exists in H. destruct H as [e [He Hb]].
   apply andb_true_iff in Hb. destruct Hb as [Hb Hn]. apply andb_true_iff in Hb. destruct Hb as [Hs _].
   exists r, e. split; [reflexivity|]. split; [exact He|]. split; [exact Hs|].
@@ -380,40 +468,33 @@ Qed.
 Definition n_personal_sasT := Eval vm_compute in bs "personal_signAndSendTransaction".
 Definition n_aqua_getWork := Eval vm_compute in bs "aqua_getWork".
 Definition n_miner_start := Eval vm_compute in bs "miner_start".
+Definition n_testing_gbt := Eval vm_compute in bs "testing_getBlockTemplate".
 Definition n_personal_sign := Eval vm_compute in bs "personal_sign".
 Definition n_aqua_sign := Eval vm_compute in bs "aqua_sign".
 
 Definition cfg_personal : config := Eval vm_compute in mkConfig [bs "personal"] [bs "personal"] false.
 
-(* full-strength statement of the property is false of the model of the unchanged tree *)
+(* the full-strength statement is false of the model of the current tree: on a clique chain, in the
+   default environment with the default module whitelist, HTTP serves aqua_getWork, which starts the
+   miner, i.e. block sealing with the aquabase keystore key *)
 Theorem default_env_no_signing_refuted :
-  exists t c r e, gen_exposed all_off t c gen_apis = Some r /\ In e (r_entries r) /\ e_signs e = true
-                  /\ wire_name e = n_personal_sasT.
+  exists apis t c r e, In apis gen_api_sets /\ gen_exposed all_off t c apis = Some r /\ In e (r_entries r)
+                       /\ e_signs e = true /\ wire_name e = n_aqua_getWork.
 Proof.
-  exists IPC, gen_default_config.
-  apply serves_signing_spec. vm_compute. reflexivity.
+  exists gen_apis_clique, HTTP, gen_default_config.
+  destruct (serves_signing_spec gen_apis_clique all_off HTTP gen_default_config n_aqua_getWork) as [r [e H]];
+    [vm_compute; reflexivity|].
+  exists r, e. split; [right; left; reflexivity | exact H].
 Qed.
 
-Theorem default_env_no_signing_refuted_inproc :
-  exists r e, gen_exposed all_off InProc gen_default_config gen_apis = Some r /\ In e (r_entries r)
-              /\ e_signs e = true /\ wire_name e = n_personal_sasT.
-Proof. apply serves_signing_spec. vm_compute. reflexivity. Qed.
-
-Theorem default_env_no_signing_refuted_http_ws :
-  (exists r e, gen_exposed all_off HTTP cfg_personal gen_apis = Some r /\ In e (r_entries r)
-               /\ e_signs e = true /\ wire_name e = n_personal_sasT)
-  /\ (exists r e, gen_exposed all_off WS cfg_personal gen_apis = Some r /\ In e (r_entries r)
-               /\ e_signs e = true /\ wire_name e = n_personal_sasT).
-Proof. split; apply serves_signing_spec; vm_compute; reflexivity. Qed.
-
-(* with the DEFAULT module whitelist, HTTP and WS serve aqua_getWork, which starts the miner
-   (on a clique chain: block sealing with the unlocked aquabase key) *)
-Theorem default_env_no_signing_refuted_public_getwork :
-  (exists r e, gen_exposed all_off HTTP gen_default_config gen_apis = Some r /\ In e (r_entries r)
-               /\ e_signs e = true /\ wire_name e = n_aqua_getWork)
-  /\ (exists r e, gen_exposed all_off WS gen_default_config gen_apis = Some r /\ In e (r_entries r)
-               /\ e_signs e = true /\ wire_name e = n_aqua_getWork).
-Proof. split; apply serves_signing_spec; vm_compute; reflexivity. Qed.
+(* all three exceptions are really served in the default environment (IPC, clique chain) *)
+Theorem default_env_exceptions_served :
+  serves_signing gen_apis_clique all_off IPC gen_default_config n_miner_start = true /\
+  serves_signing gen_apis_clique all_off IPC gen_default_config n_aqua_getWork = true /\
+  serves_signing gen_apis_clique all_off IPC gen_default_config n_testing_gbt = true /\
+  serves_signing gen_apis_clique all_off WS gen_default_config n_aqua_getWork = true /\
+  serves_signing gen_apis all_off HTTP gen_default_config n_aqua_getWork = true.
+Proof. vm_compute. repeat split; reflexivity. Qed.
 
 (* ---------- non-vacuity / positive side of the opt-in ---------- *)
 
@@ -423,36 +504,37 @@ Definition only_http : flags := mkFlags false false true false false.
 Definition count_entries (o : option registry) : N :=
   match o with Some r => lenN (r_entries r) | None => 0 end.
 
-Definition serves (f : flags) (t : transport) (c : config) (name : bytes) : bool :=
-  match gen_exposed f t c gen_apis with
+Definition serves (apis : list api) (f : flags) (t : transport) (c : config) (name : bytes) : bool :=
+  match gen_exposed f t c apis with
   | Some r => existsb (fun e => bytes_eqb (wire_name e) name) (r_entries r)
   | None => false
   end.
 
-(* all four servers start in the default environment and serve a non-trivial method set *)
+(* all four servers start in the default environment and serve a non-trivial method set, on both chains *)
 Example default_env_starts :
   (100 <=? count_entries (gen_exposed all_off InProc gen_default_config gen_apis))%N = true /\
-  (100 <=? count_entries (gen_exposed all_off IPC gen_default_config gen_apis))%N = true /\
+  (100 <=? count_entries (gen_exposed all_off IPC gen_default_config gen_apis_clique))%N = true /\
   (40 <=? count_entries (gen_exposed all_off HTTP gen_default_config gen_apis))%N = true /\
-  (40 <=? count_entries (gen_exposed all_off WS gen_default_config gen_apis))%N = true.
+  (40 <=? count_entries (gen_exposed all_off WS gen_default_config gen_apis_clique))%N = true.
 Proof. vm_compute. repeat split; reflexivity. Qed.
 
-(* opting in for IPC enables personal_sign / aqua_sign on IPC and nowhere else;
-   in the default environment they are served nowhere *)
+(* opting in for IPC enables personal_sign / aqua_sign / personal_signAndSendTransaction on IPC and
+   nowhere else; in the default environment they are served nowhere *)
 Example optin_ipc_enables_ipc_only :
-  serves_signing only_ipc IPC gen_default_config n_personal_sign = true /\
-  serves_signing only_ipc IPC gen_default_config n_aqua_sign = true /\
-  serves only_ipc InProc gen_default_config n_personal_sign = false /\
-  serves only_ipc HTTP cfg_personal n_personal_sign = false /\
-  serves only_ipc WS cfg_personal n_personal_sign = false /\
-  serves only_ipc HTTP gen_default_config n_aqua_sign = false /\
-  serves all_off IPC gen_default_config n_personal_sign = false /\
-  serves all_off IPC gen_default_config n_aqua_sign = false /\
-  serves_signing only_http HTTP gen_default_config n_aqua_sign = true /\
-  serves only_http IPC gen_default_config n_aqua_sign = false.
+  serves_signing gen_apis only_ipc IPC gen_default_config n_personal_sign = true /\
+  serves_signing gen_apis only_ipc IPC gen_default_config n_aqua_sign = true /\
+  serves_signing gen_apis only_ipc IPC gen_default_config n_personal_sasT = true /\
+  serves gen_apis only_ipc InProc gen_default_config n_personal_sign = false /\
+  serves gen_apis only_ipc HTTP cfg_personal n_personal_sign = false /\
+  serves gen_apis only_ipc WS cfg_personal n_personal_sasT = false /\
+  serves gen_apis all_off IPC gen_default_config n_personal_sign = false /\
+  serves gen_apis all_off IPC gen_default_config n_personal_sasT = false /\
+  serves gen_apis all_off HTTP cfg_personal n_personal_sasT = false /\
+  serves_signing gen_apis_clique only_http HTTP gen_default_config n_aqua_sign = true /\
+  serves gen_apis_clique only_http IPC gen_default_config n_aqua_sign = false.
 Proof. vm_compute. repeat split; reflexivity. Qed.
 
 (* UNSAFE_RPC_SIGNING alone changes nothing on any transport *)
-Example global_flag_is_dead t c :
-  gen_exposed (mkFlags true false false false false) t c gen_apis = gen_exposed all_off t c gen_apis.
+Example global_flag_is_dead t c apis :
+  gen_exposed (mkFlags true false false false false) t c apis = gen_exposed all_off t c apis.
 Proof. apply optin_is_per_transport. destruct t; reflexivity. Qed.
